@@ -81,6 +81,24 @@ pub fn witness_delete_after_compaction() -> Case {
 /// pass merges >= 3 row-sets (odd and even counts), then key predicates pushed into the scan
 /// (`DELETE WHERE pk = k`, a key-range DELETE, `SELECT WHERE pk = k`) and the ordered scan, in the
 /// setup after a compaction pass (sequential) and/or concurrently with one.
+/// Three overlapping DELETEs on rows of one row-set (see c10.rs `w-three-deleters`).
+pub fn witness_three_deleters() -> Case {
+    Case {
+        id: "w-three-deleters".into(),
+        gate: gates(),
+        setup: vec![Cmd::Create("t1".into()), Cmd::Insert("t1".into(), vec![1, 2, 3])],
+        actors: vec![
+            vec![Cmd::Delete("t1".into(), "eq".into(), 1)],
+            vec![Cmd::Delete("t1".into(), "eq".into(), 2)],
+            vec![Cmd::Delete("t1".into(), "eq".into(), 1)],
+        ],
+        sched: vec![],
+        rng: 0,
+        sticky: 0,
+        script: vec![(3, "txn.lock.begin".into()), (1, "end".into()), (2, "end".into()), (3, "end".into())],
+    }
+}
+
 fn gen_keyed_case(r: &mut Rng, k: usize) -> Case {
     let n_ins = r.range(3, 5) as i32;
     let per = r.range(2, 3) as i32;
@@ -129,7 +147,46 @@ fn gen_keyed_case(r: &mut Rng, k: usize) -> Case {
     }
 }
 
+/// Three or four DELETE sessions on rows of ONE row-set, with overlapping targets: a session's
+/// scan pins its snapshot before the session takes the table lock, so other DELETEs (of the same
+/// row and of other rows of the row-set) commit between a session's scan and its commit.
+fn gen_deleters_case(r: &mut Rng, k: usize) -> Case {
+    let n = r.range(3, 4) as usize;
+    let mut setup = vec![Cmd::Create("t1".into()), Cmd::Insert("t1".into(), vec![1, 2, 3])];
+    if r.chance(1, 3) {
+        setup.push(Cmd::Insert("t1".into(), vec![4, 5]));
+    }
+    let mut actors = vec![];
+    for i in 0..n {
+        // at least two sessions aim at row 1, one at another row of the same row-set
+        let key = match i {
+            0 => 1,
+            1 => *r.pick(&[2, 3]),
+            2 => 1,
+            _ => *r.pick(&[1, 2, 3, 4]),
+        };
+        let mut a = vec![Cmd::Delete("t1".into(), "eq".into(), key)];
+        if r.chance(1, 3) {
+            a.push(Cmd::Count("t1".into()));
+        }
+        actors.push(a);
+    }
+    Case {
+        id: format!("d{k}"),
+        gate: gates(),
+        setup,
+        actors,
+        sched: vec![],
+        rng: r.next() | 1,
+        sticky: *r.pick(&[0, 30, 60]),
+        script: vec![],
+    }
+}
+
 fn gen_case(r: &mut Rng, k: usize) -> Case {
+    if k % 5 == 4 {
+        return gen_deleters_case(r, k);
+    }
     if k % 3 == 2 {
         return gen_keyed_case(r, k);
     }
@@ -192,6 +249,8 @@ fn main() {
             out += &witness_stale_snapshot(1).to_sexp();
             out.push('\n');
             out += &witness_delete_after_compaction().to_sexp();
+            out.push('\n');
+            out += &witness_three_deleters().to_sexp();
             out.push('\n');
             for k in 0..n {
                 out += &gen_case(&mut r, k).to_sexp();
